@@ -345,7 +345,7 @@ def adm_case(draw):
     for _ in range(draw(st.integers(1, 3))):
         body.append([draw(st.sampled_from(["p", "text"])), draw(st.sampled_from(MD_TEXT))])
     return {"classes": classes, "name": name, "title": title, "title_tag": title_tag, "title_class": title_class, "body": body,
-            "earlier": draw(st.sampled_from([None, None] + EARLIER))}
+            "earlier": draw(st.sampled_from([None, None] + EARLIER)), "second": draw(st.booleans())}
 
 
 def build_adm(case):
@@ -360,11 +360,16 @@ def build_adm(case):
             lines.extend(text.split("\n"))
         md_body.append(text)
     lines.append("</div>")
+    if case.get("second"):
+        # a second admonition in the same HTML block (no blank line between them), without a title of its own
+        lines += ['<div class="admonition">', "<p>second body</p>", "</div>"]
     opts = [":class: " + json.dumps(case["classes"])]
     if case["name"] is not None:
         opts.append(":name: " + json.dumps(case["name"]))
     title = case["title"] if case["title"] is not None else "Note"
     directive = "~~~~{admonition} " + title + "\n" + "\n".join(sorted(opts)) + "\n\n" + "\n\n".join(md_body) + "\n~~~~"
+    if case.get("second"):
+        directive += '\n\n~~~~{admonition} Note\n:class: "admonition"\n\nsecond body\n~~~~'
     return "\n".join(lines), directive
 
 
@@ -453,7 +458,9 @@ class _Tags(HTMLParser):
 GFM_PIECES = ["<script>", "</script>", "<SCRIPT>", "<Script src=\"x\">", "<script\n>", "<script/>", "<script", "<scripts>", "<style>a{}</style>",
               "<title>t</title>", "<textarea>", "<xmp>", "<iframe src=\"u\">", "</iframe>", "<noembed>", "<noframes>", "<plaintext>", "<plaintext/>",
               "<xmpx>", "< script>", "<\tscript>", "<b>", "</b>", "<div>", "</div>", "text", " ", "\n", "<!-- <script> -->", "&lt;script>",
-              "<a href=\"<script>\">", "<<script>", "<script><script>", "<STYLE\ttype=\"x\">", "<title\f>", "<textarea\r>"]
+              "<a href=\"<script>\">", "<<script>", "<script><script>", "<STYLE\ttype=\"x\">", "<title\f>", "<textarea\r>",
+              # (a '/' right after the name ends the name, whatever follows it)
+              "<script/src=\"x.js\">", "<iframe/onload=x>", "<xmp//>", "<style/ >"]
 
 
 @st.composite
@@ -525,7 +532,7 @@ def sub_gfm(acc, shard, nshards, tier, seed):
 def sub_gfm_each(acc, shard, nshards, tier, seed):
     """Every name x {open, close} x every following character of interest x case: exhaustive."""
     i = 0
-    follows = ["\t", "\n", "\f", "\r", " ", "/", ">", "", "x", "-", "1", ":", "\\"]
+    follows = ["\t", "\n", "\f", "\r", " ", "/", ">", "", "x", "-", "1", ":", "\\", "/x", "//", "/ "]
     for name in NINE:
         for close in ("", "/"):
             for f in follows:
